@@ -62,9 +62,26 @@ func c12Birth(w *W, st ref.Stamp, class string) {
 	birth := fmtStamp(st)
 	l := solarOf(st).GetLunar()
 	ec := l.GetEightChar()
-	prevJ, nextJ := l.GetPrevJie(), l.GetNextJie()
+	// previous / next Jie from the term table by the rule (latest at-or-before, earliest strictly after),
+	// not through GetPrevJie/GetNextJie, which are under test here as much as in C03
+	var prevJ, nextJ *ref.Stamp
+	tbl := l.GetJieQiTable()
+	for p := 0; p <= 30; p += 2 {
+		e := tbl[termKeys31[p]]
+		if e == nil {
+			continue
+		}
+		es := stampOf(e)
+		if es.Secs() <= st.Secs() {
+			c := es
+			prevJ = &c
+		} else if nextJ == nil {
+			c := es
+			nextJ = &c
+		}
+	}
 	if prevJ == nil || nextJ == nil {
-		w.Violatef("jie", birth, "no previous/next Jie for birth %s", birth)
+		w.Violatef("jie", birth, "no previous/next Jie for birth %s in its term table", birth)
 		return
 	}
 	mIdx := ref.PairIndex(l.GetMonthInGanZhiExact())
@@ -79,9 +96,9 @@ func c12Birth(w *W, st ref.Stamp, class string) {
 			if yun.IsForward() != fw {
 				w.Violatef("direction", tag, "birth %s gender %d: IsForward=%v but the exact year pillar %s is yang=%v", birth, gender, yun.IsForward(), l.GetYearInGanZhiExact(), yang)
 			}
-			a, b := st, stampOf(nextJ.GetSolar())
+			a, b := st, *nextJ
 			if !fw {
-				a, b = stampOf(prevJ.GetSolar()), st
+				a, b = *prevJ, st
 			}
 			ja, jb := ref.JDN(a.Y, a.M, a.D), ref.JDN(b.Y, b.M, b.D)
 			var Y, M, D, H int
